@@ -243,16 +243,35 @@ func ruleSingleDispatch(c *Ctx, rule string) {
 		if isNilConst(v) {
 			return true
 		}
-		switch x := v.(type) {
-		case *ssa.Phi:
-			for _, e := range x.Edges {
+		if depth > 6 {
+			return false
+		}
+		if alts, ok := altEdges(v); ok { // phi, or result of a private helper wrapped around the lookup
+			saved := append([]*ssa.Call{}, lookups...)
+			good := true
+			for _, e := range alts {
 				if !visit(e, depth+1) {
-					return false
+					good = false
+					break
 				}
 			}
-			return true
+			if good {
+				return true
+			}
+			lookups = saved
+			if _, isPhi := v.(*ssa.Phi); isPhi {
+				return false
+			}
+			// not a wrapper around a lookup: perhaps the lookup itself (below)
+		}
+		switch x := v.(type) {
 		case *ssa.Call:
 			if f := staticCallee(x); f != nil && w.inRoot(f) {
+				for _, l := range lookups {
+					if l == x {
+						return true
+					}
+				}
 				lookups = append(lookups, x)
 				return true
 			}
@@ -302,6 +321,19 @@ func ruleSingleDispatch(c *Ctx, rule string) {
 	if okQ {
 		// svc argument of dispatch is extract #1 of q
 		ex, ok := origin(args[2]).(*ssa.Extract)
+		if alts, isAlt := altEdges(origin(args[2])); isAlt && !(ok && ex.Tuple == ssa.Value(q)) {
+			// handed through the private helper that wraps the lookup: nil (rejected) or the lookup's second result
+			for _, l := range alts {
+				if isNilConst(l) {
+					continue
+				}
+				ex, ok = origin(l).(*ssa.Extract)
+				if !ok || ex.Tuple != ssa.Value(q) || ex.Index != 1 {
+					ok = false
+					break
+				}
+			}
+		}
 		c.check(ok && ex.Tuple == ssa.Value(q) && ex.Index == 1, rule, w.Short(a.Create)+": implementation from the same service lookup", w.At(spawn), desc(args[2]), "the service implementation passed to the handler is "+desc(args[2])+", not the one returned together with the service descriptor")
 		// q's name arg = parts[0], lookup's name arg = parts[1], parts = SplitN(name,"/",2), name derives from frame.MethodName
 		p0, p1 := indexOfSplit(q.Call.Args[len(q.Call.Args)-1]), indexOfSplit(lk.Call.Args[1])
@@ -1368,8 +1400,9 @@ func cancelPairsWithCtx(cancelV, ctxV ssa.Value) bool {
 				calls[call] = true
 				return true
 			}
-		case *ssa.Phi:
-			for _, e := range x.Edges {
+		}
+		if alts, ok := altEdges(v); ok { // phi, or result of a private helper
+			for _, e := range alts {
 				if !collect(e, d+1) {
 					return false
 				}
@@ -1389,6 +1422,14 @@ func cancelPairsWithCtx(cancelV, ctxV ssa.Value) bool {
 		if d > 12 || found {
 			return
 		}
+		if _, isPhi := v.(*ssa.Phi); !isPhi {
+			if alts, ok := altEdges(v); ok {
+				for _, e := range alts {
+					walk(e, d+1)
+				}
+				return
+			}
+		}
 		switch x := v.(type) {
 		case *ssa.Extract:
 			if call, ok := x.Tuple.(*ssa.Call); ok {
@@ -1407,6 +1448,27 @@ func cancelPairsWithCtx(cancelV, ctxV ssa.Value) bool {
 		case *ssa.Phi:
 			for _, e := range x.Edges {
 				walk(e, d+1)
+			}
+		case *ssa.UnOp:
+			// the field of the object under construction read back (str.ctx = wrap(str.ctx)): what was stored there before
+			if fa, ok := x.X.(*ssa.FieldAddr); ok && x.Op == token.MUL {
+				if al, ok := fa.X.(*ssa.Alloc); ok {
+					var best *ssa.Store
+					for _, r := range *al.Referrers() {
+						fa2, ok := r.(*ssa.FieldAddr)
+						if !ok || fa2.Field != fa.Field {
+							continue
+						}
+						for _, r2 := range *fa2.Referrers() {
+							if st, ok := r2.(*ssa.Store); ok && st.Addr == ssa.Value(fa2) && dominates(st, x) && (best == nil || dominates(best, st)) {
+								best = st
+							}
+						}
+					}
+					if best != nil {
+						walk(best.Val, d+1)
+					}
+				}
 			}
 		}
 	}
